@@ -118,7 +118,7 @@ impl Engine for C12 {
     }
     fn runs(&self, tier: Tier) -> u64 {
         match tier {
-            Tier::Quick => 30_000,
+            Tier::Quick => 60_000,
             Tier::Thorough => 1_500_000,
         }
     }
